@@ -108,6 +108,15 @@ func HeldLocks(fn *ssa.Function, entry LockSet) map[ssa.Instruction]LockSet {
 			if record {
 				held[ins] = cur.clone()
 			}
+			// a helper that returns with a lock held ("lock-in-helper": lock(); return
+			// unlock) acquires that lock for its caller
+			if ci, ok := ins.(*ssa.Call); ok {
+				if cal := ci.Call.StaticCallee(); cal != nil && cal.Blocks != nil && cal != fn {
+					for k := range AcquireSummary(cal) {
+						cur[k] = true
+					}
+				}
+			}
 			name, op := lockOp(ins)
 			alias := LockAlias[name]
 			switch op {
@@ -334,3 +343,73 @@ func EntryLocks(p *Prog, pkgPath string) (map[*ssa.Function]LockSet, map[*ssa.Fu
 }
 
 func isOpenEntry(l LockSet) bool { return l != nil && len(l) == 0 }
+
+var acquireMemo = map[*ssa.Function]LockSet{}
+var acquireBusy = map[*ssa.Function]bool{}
+
+// AcquireSummary: the locks fn holds at every one of its returns that it did not hold at
+// entry (it acquired them and leaves them to its caller to release). Only small
+// functions of the repository are summarised.
+func AcquireSummary(fn *ssa.Function) LockSet {
+	if v, ok := acquireMemo[fn]; ok {
+		return v
+	}
+	if acquireBusy[fn] || fn.Blocks == nil || fn.Pkg == nil || !strings.HasPrefix(fn.Pkg.Pkg.Path(), ModPath) {
+		return nil
+	}
+	n := 0
+	hasLock := false
+	Instrs(fn, func(in ssa.Instruction) {
+		n++
+		if _, op := lockOp(in); op > 0 {
+			hasLock = true
+		}
+	})
+	if n > 40 || !hasLock {
+		acquireMemo[fn] = nil
+		return nil
+	}
+	acquireBusy[fn] = true
+	defer delete(acquireBusy, fn)
+	// a deferred release inside fn gives the lock back before fn returns
+	deferred := map[string]bool{}
+	Instrs(fn, func(in ssa.Instruction) {
+		if d, ok := in.(*ssa.Defer); ok {
+			if id, ok := Callee(d.Common()); ok && id.Pkg == "sync" && (id.Name == "Unlock" || id.Name == "RUnlock") {
+				recv, _ := CallArgs(d.Common())
+				if fa, ok := Strip(recv).(*ssa.FieldAddr); ok {
+					t, f := FieldAddrName(fa)
+					deferred[t+"."+f] = true
+				}
+			}
+		}
+	})
+	held := HeldLocks(fn, LockSet{})
+	var acc LockSet
+	nRet := 0
+	Instrs(fn, func(in ssa.Instruction) {
+		if _, ok := in.(*ssa.Return); ok && in.Block() != fn.Recover {
+			nRet++
+			acc = meet(acc, held[in])
+		}
+	})
+	out := LockSet{}
+	if nRet > 0 {
+		for k := range acc {
+			name := strings.TrimPrefix(strings.TrimPrefix(k, "W:"), "R:")
+			if a, ok := LockAlias[name]; ok && deferred[name] {
+				_ = a
+			}
+			if deferred[name] {
+				continue
+			}
+			// alias classes are added by the transfer function when the member lock is present
+			out[k] = true
+		}
+	}
+	if len(out) == 0 {
+		out = nil
+	}
+	acquireMemo[fn] = out
+	return out
+}
